@@ -129,6 +129,7 @@ def main(ctx, replay=None):
                 bad_n = [k for k in range(8, 20) if len(numpy.arange(pm, pm + k * dp, dp)) != k]
                 if bad_n and pm + 20 * dp < hi:
                     ds.settings.update({"P_MIN": pm, "DELTA_P": dp, "DELTA_P_SAMPLE": dp, "NTV": int(rng.choice(bad_n))})
+                    ds.settings["NT"] = ds.settings["NTV"] - 4    # (keeps the coincidence of the two axis lengths)
             if n % 2 == 0:
                 # a second calculation in the same process on the SAME pressure grid (P_MIN, DELTA_P, NTV) but another material and
                 # another volume_ratio: its conversion must use its own P(T,V) field.  The shared grid lies inside both ranges.
